@@ -1256,12 +1256,12 @@ class sptensor:
 
         # Find which values in the mask match nonzeros in X
         valid, idx = tt_ismember_rows(wsubs, self.subs)
-        matching_indices = idx[valid]
 
         # Assemble return array
         nvals = wsubs.shape[0]
         vals = np.zeros((nvals, 1))
-        vals[matching_indices] = self.vals[matching_indices]
+        # Row i of the mask takes the value stored at position idx[i] of self
+        vals[valid] = self.vals[idx[valid]]
         return vals
 
     def mttkrp(
